@@ -75,13 +75,6 @@ pub fn sync(label: &str) {
 pub fn sync_cb(label: &str) {
     sync(label)
 }
-pub fn sync_hook(kind: u32, _a: usize, b: usize, _c: usize) {
-    if ME.with(|m| m.get()) == usize::MAX {
-        return;
-    }
-    sync(&format!("H{}:{}", kind, b));
-}
-
 /// let thread `p` run to its next sync point; returns the label it stopped at ("exit" when done)
 pub fn step(p: usize) -> String {
     let mut g = SCHED.lock().unwrap();
